@@ -275,7 +275,7 @@ static void addInlineSuppressions(const simplecpp::TokenList &tokens, const Sett
                             continue;
                         }
 
-                        if (suppr.symbolName == supprBegin->symbolName && suppr.lineNumber > supprBegin->lineNumber) {
+                        if (suppr.errorId == supprBegin->errorId && suppr.symbolName == supprBegin->symbolName && suppr.lineNumber > supprBegin->lineNumber) {
                             suppr.lineBegin = supprBegin->lineNumber;
                             suppr.lineEnd = suppr.lineNumber;
                             suppr.lineNumber = supprBegin->lineNumber;
